@@ -126,6 +126,93 @@ def expand_bool_leaves(tree):
     return tree
 
 
+def _cond_atom(c):
+    """(atom, polarity): a canonical orientation of a branch condition (operands totally ordered, see DESIGN 8.4)."""
+    c = strip(c)
+    if head(c) == "un" and c[1] == "not":
+        a, p = _cond_atom(c[2])
+        return a, not p
+    if head(c) == "cmp":
+        op, a, b = c[1], c[2], c[3]
+        if op in (">", ">="):
+            op, a, b = {">": "<", ">=": "<="}[op], b, a
+        if op == "<=":
+            return ("cmp", "<", b, a), False
+        if op in ("!=", "notin", "isnot"):
+            return ("cmp", {"!=": "==", "notin": "in", "isnot": "is"}[op], a, b), False
+        return ("cmp", op, a, b), True
+    return c, True
+
+
+def ordered_tree(body, limit=6):
+    """Decision-tree normal form of a binder body: conditionals lifted to the top, conditions oriented and tested in a canonical order,
+    tests whose branches agree removed."""
+    try:
+        tree = _lift(strip_all(body), [200])
+    except AnalysisBroken:
+        return body
+    if head(tree) != "ite":
+        return tree
+
+    def orient(t):
+        if head(t) != "ite":
+            return t
+        a, p = _cond_atom(t[1])
+        x, y = orient(t[2]), orient(t[3])
+        return ("ite", a, x, y) if p else ("ite", a, y, x)
+    tree = orient(tree)
+    conds = []
+    def collect(t):
+        if head(t) == "ite":
+            if t[1] not in conds:
+                conds.append(t[1])
+            collect(t[2]); collect(t[3])
+    collect(tree)
+    if len(conds) > limit:
+        return tree
+    conds.sort(key=repr)
+
+    def restrict(t, c, val):
+        if head(t) != "ite":
+            return t
+        if t[1] == c:
+            return restrict(t[2] if val else t[3], c, val)
+        return ("ite", t[1], restrict(t[2], c, val), restrict(t[3], c, val))
+
+    def build(t, i):
+        if head(t) != "ite" or i >= len(conds):
+            return t
+        c = conds[i]
+        if not any(x == c for x in _tests(t)):
+            return build(t, i + 1)
+        a, b = build(restrict(t, c, True), i + 1), build(restrict(t, c, False), i + 1)
+        return a if a == b else ("ite", c, a, b)
+
+    def _tests(t):
+        if head(t) == "ite":
+            yield t[1]
+            yield from _tests(t[2])
+            yield from _tests(t[3])
+    return build(tree, 0)
+
+
+def canon_bodies(t):
+    """Comprehension elements and lambda bodies in decision-tree normal form; comprehension filters oriented."""
+    if head(t) == "comp":
+        elt = ordered_tree(t[2]) if any(x[0] == "ite" for x in walk(t[2])) else t[2]
+        gens = []
+        for g_, conds in t[3]:
+            cs = []
+            for c in conds:
+                a, p = _cond_atom(c)
+                cs.append(a if p else ("un", "not", a))
+            gens.append((g_, tuple(cs)))
+        return ("comp", t[1], elt, tuple(gens), t[4])
+    if head(t) == "lam" and any(x[0] == "ite" for x in walk(t[3])):
+        return ("lam", t[1], t[2], ordered_tree(t[3]))
+    return t
+
+
 def canon_params(summary, skip_self=False):
     """Positional canonical names so that a renamed parameter does not matter."""
     m = {}
@@ -195,6 +282,7 @@ class Equiv:
         # conditionals lifted out of loops may expose plain accumulations: canonicalise once more
         for rw in self.rewrites:
             t = rewrite(t, rw)
+        t = rewrite(t, canon_bodies)
         return t
 
     def leaf_eq(self, a, b):
@@ -270,8 +358,11 @@ class Equiv:
                     f = strip(x[1])
                     if head(f) == "glob":
                         out.add(("f", f[1]))
+                        if not (f[1].startswith("pyrepseq.") or f[1].startswith("builtins.")):
+                            out.update(("fk", f[1], k) for k, _ in x[3] if k != "**")
                     elif head(f) == "attr":
                         out.add(("m", f[2]))
+                        out.update(("mk", f[2], k) for k, _ in x[3] if k != "**")
                 elif x[0] in ("fold", "floop", "bfold", "bfloop", "comp", "lam", "try", "fstr", "mut", "mutf"):
                     out.add(("shape", x[0] if x[0] not in ("mut", "mutf") else x[0] + ":" + str(x[1])))
             return out
@@ -282,7 +373,11 @@ class Equiv:
         self.code_vocab = cv | vocab(strip_all(self.code_raw))
         known |= {("m", m) for m in ("astype", "sum", "mean")} | {("m", m[1:]) for m in self.modelled if m.startswith(".")} | {("shape", m[6:]) for m in self.modelled if m.startswith("shape:")}
         base = {tuple(v) for v in BASELINE_VOCAB.get(self.vocab_key, [])}
-        extra = {v for v in cv - sv - known - base if not (v[0] == "f" and v[1].startswith("builtins.") and v[1] in _PURE_BUILTINS)}
+        # keywords count as vocabulary only for callables the rule has no model of (known from the baseline record or the small method list):
+        # a modelled callable's keywords are part of its model
+        modelled_names = {v[1] for v in sv if v[0] in ("f", "m")} | {n for n in self.modelled} | {n[1:] for n in self.modelled if n.startswith(".")}
+        extra = {v for v in cv - sv - known - base if not (v[0] == "f" and v[1].startswith("builtins.") and v[1] in _PURE_BUILTINS)
+                 and not (v[0] in ("fk", "mk") and v[1] in modelled_names)}
         return sorted(extra)
 
 
@@ -798,6 +893,17 @@ def small_rewrites(t):
             if n == "builtins.list" and len(t[2]) == 1 and not t[3] and head(strip(t[2][0])) == "comp" and strip(t[2][0])[1] in ("list", "gen"):
                 x = strip(t[2][0])
                 return ("comp", "list", x[2], x[3], x[4])
+            if n in ("builtins.list", "builtins.tuple") and len(t[2]) == 1 and not t[3] and head(strip(t[2][0])) == n.rsplit(".", 1)[1]:
+                return strip(t[2][0])      # list([a, b]) == [a, b]
+            if n == "builtins.len" and len(t[2]) == 1 and not t[3]:
+                u = strip(t[2][0])
+                # number of distinct values: len(np.unique([f(x) for x in X])) == len({f(x) for x in X})
+                if head(u) == "call" and strip(u[1]) == ("glob", "numpy.unique") and len(u[2]) + len(u[3]) == 1:
+                    a = strip(u[2][0] if u[2] else u[3][0][1])
+                    while head(a) == "call" and strip(a[1]) in (("glob", "numpy.array"), ("glob", "numpy.asarray")) and len(a[2]) == 1 and not a[3]:
+                        a = strip(a[2][0])
+                    if head(a) == "comp" and a[1] in ("list", "gen"):
+                        return ("call", t[1], (("comp", "set", a[2], a[3], a[4]),), ())
             if n == "builtins.dict" and len(t[2]) == 1 and not t[3]:
                 x = strip(t[2][0])
                 # dict({k: v for k, v in pairs}) is handled below; dict(d) of a fresh dict comprehension is that comprehension
@@ -1024,6 +1130,12 @@ def canon_folds(t):
                 c = to_comp("list", x, conds)
                 if c is not None:
                     return ("call", ("attr", const(""), "join"), (c,), ())
+            # several conditional pieces per iteration: the string appended in one iteration, as a decision tree
+            pt = _piece_tree(step, acc)
+            if pt is not None:
+                c = to_comp("list", pt, ())
+                if c is not None:
+                    return ("call", ("attr", const(""), "join"), (c,), ())
         return t
     if h == "floop" and t[1] == "for":
         d, it, body, rest = t[2], t[3], strip(t[4]), strip(t[5])
@@ -1101,6 +1213,22 @@ def _pair_loop(t):
     if any(x == e0 or x == e1 for x in walk(body)) or any(x[0] == "acc" and x[1] == d1 for x in walk(body)):
         return None
     return ("fold", "for", d, combos, init, body, ())
+
+
+def _piece_tree(step, acc):
+    """step == acc + p1 [+ p2 ...] along every path  ->  the appended string as a term (conditionals kept), else None."""
+    step = strip(step)
+    if step == acc:
+        return const("")
+    if head(step) == "ite":
+        a, b = _piece_tree(step[2], acc), _piece_tree(step[3], acc)
+        return None if a is None or b is None else ("ite", step[1], a, b)
+    if head(step) == "bin" and step[1] == "+" and not any(y == acc for y in walk(step[3])):
+        a = _piece_tree(step[2], acc)
+        if a is None:
+            return None
+        return step[3] if is_const(a, "") else ("bin", "+", a, step[3])
+    return None
 
 
 def _str_pieces(step, acc):
